@@ -349,7 +349,7 @@ Definition init_of (r : mrule) (s : stmt) : option (nat * akind * list expr) :=
       | MCollAdd, EComp CList _ _ _ _ _ => Some (x, AKList, [EStar e])
       | MCollAdd, EComp CSet _ _ _ _ _ => Some (x, AKSet, [EStar e])
       | MCollAdd, EBi BSet [] => Some (x, AKSet, [])
-      | MCollAdd, EBi BSet (a :: _) => if plain a then Some (x, AKSet, [EStar a]) else None
+      | MCollAdd, EBi BSet [a] => if plain a then Some (x, AKSet, [EStar a]) else None
       | _, _ => None
       end
   | _ => None
@@ -550,12 +550,23 @@ Definition filter_test (x : nat) (c : expr) : option (option nat) :=
   | _ => None
   end.
 
+(* a compound body statement is printed without its inner indentation by the template back end; the
+   unparsable text is rolled back (harmless; C14's territory): the rule is silent *)
+Definition simple_stmt (s : stmt) : bool :=
+  match s with SIf _ _ _ | SFor _ _ _ => false | _ => true end.
+
 Definition rw_filter (s : stmt) : option stmt :=
   match s with
   | SFor (TName x) (IPlain e) [SIf c [s1] []] =>
-      match filter_test x c with Some f => Some (SFor (TName x) (IFilter f e) [s1]) | None => None end
+      match filter_test x c with
+      | Some f => if simple_stmt s1 then Some (SFor (TName x) (IFilter f e) [s1]) else None
+      | None => None
+      end
   | SFor (TName x) (IPlain e) [SIf (ENot c) [SCont] []; s1] =>
-      match filter_test x c with Some f => Some (SFor (TName x) (IFilter f e) [s1]) | None => None end
+      match filter_test x c with
+      | Some f => if simple_stmt s1 then Some (SFor (TName x) (IFilter f e) [s1]) else None
+      | None => None
+      end
   | _ => None
   end.
 
@@ -738,20 +749,19 @@ Fixpoint block_eqb (x y : list stmt) : bool :=
 (* statement-level rules of the case files *)
 Inductive brule := BMerge (r : mrule) | BImmRet | BFilter | BItems (us_read : bool).
 
-Definition map_first {A} (f : A -> option A) (l : list A) : list A :=
-  match l with
-  | a :: tl => match f a with Some a' => a' :: tl | None => l end
-  | [] => []
-  end.
+Definition map_opt {A} (f : A -> option A) (l : list A) : list A :=
+  map (fun a => match f a with Some a' => a' | None => a end) l.
 
 (* the block a rule produces (the block itself when the rule is silent); BFilter / BItems are judged on
-   the first statement *)
+   the statements of the block itself *)
+Definition iter5 {A} (f : A -> A) (a : A) : A := f (f (f (f (f a)))).   (* processing.fix: up to 5 passes *)
+
 Definition apply_brule (r : brule) (b : list stmt) : list stmt :=
   match r with
-  | BMerge m => merge_block m b
-  | BImmRet => rw_immret b
-  | BFilter => map_first rw_filter b
-  | BItems u => map_first (rw_items u) b
+  | BMerge m => iter5 (merge_block m) b
+  | BImmRet => iter5 rw_immret b
+  | BFilter => map_opt rw_filter b
+  | BItems u => map_opt (rw_items u) b
   end.
 
 Definition brule_case_ok (c : brule * list stmt * list stmt) : bool :=
